@@ -15,6 +15,9 @@ C14.f reading back from a present file: a merged read request keeps `from_file` 
   was tested to be None.
 C14.h an existing destination file is considered for reuse only if it is a regular file whose length equals the
   snapshot's size exactly (get_matching_file); a verified file is never truncated afterwards, so `>=` would keep a tail.
+C14.i metadata: set_metadata applies permission, times (and ownership unless no_ownership) unconditionally, times last;
+  restore_metadata calls set_metadata for every non-directory node, defers directories on a stack (no immediate
+  set_metadata of the directory just entered), applies popped directories, and drains the stack in reverse afterwards.
 C14.g R-ACCUM: file offsets advance by each blob's length (RestorePlan::add_file).
 """
 import re
@@ -49,7 +52,8 @@ def run(ctx, rep):
     for r, tx in (("C14.a", "node names are validated before they become paths"), ("C14.b", "destination entries are removed only with delete && !dry_run"),
                   ("C14.c", "write-opens do not follow pre-existing symlinks"), ("C14.d", "sparse holes only over known-zero ranges"),
                   ("C14.e", "destination walk: no link following, component-wise path order"), ("C14.f", "merged read requests keep a tested from_file"), ("C14.g", "file offsets advance by blob length"),
-                  ("C14.h", "existing files are reused only on exact size match")):
+                  ("C14.h", "existing files are reused only on exact size match"),
+                  ("C14.i", "metadata is applied to every node, completely, and to directories after their content")):
         rep.rule(r, tx)
     # ---- C14.a -------------------------------------------------------------------------------------
     NS = prog.find1(r"^<rustic_core::blob::tree::NodeStreamer<'_, BE, I> as std::iter::Iterator>::next$")
@@ -194,6 +198,8 @@ def run(ctx, rep):
         rep.check("C14.h", f"reuse-only-exact-size/{n}/every-path", ev, where=where(b, bb), what="every path that opens the existing file for reuse has seen `len == size` hold" if ev else
                   "the existing file can be opened for reuse on a path where `len == size` did not hold")
         rep.check("C14.h", f"reuse-only-regular-file/{n}", is_file, where=where(b, bb), what="... and only if it is a regular file (symlink_metadata().is_file())")
+    # ---- C14.i: metadata ---------------------------------------------------------------------------------
+    metadata_rules(ctx, rep, "C14.i")
     # ---- C14.g -------------------------------------------------------------------------------------
     AF = prog.find1(r"^rustic_core::commands::restore::RestorePlan::add_file$")
     adv = []
@@ -222,3 +228,99 @@ def _upvar_name(body, idx):
         if isinstance(p, list) and p[0] == 1 and any(isinstance(e, list) and e[0] == "f" and e[1] == idx for e in p[1:]):
             return n
     return None
+
+
+def metadata_rules(ctx, rep, R):
+    prog = ctx.prog
+    SM = prog.find1(r"^rustic_core::commands::restore::set_metadata$")
+    calls = {}
+    for bb, t in SM.calls():
+        if "callee" in t:
+            m = re.search(r"LocalDestination::(set_permission|set_times|set_uid_gid|set_user_group|set_extended_attributes|create_special)$", callee(t))
+            if m:
+                calls.setdefault(m.group(1), []).append(bb)
+    for name in ("set_permission", "set_times"):
+        sites_ = calls.get(name, [])
+        ok = len(sites_) == 1 and C.dominates(SM, sites_[0], [bi for bi in range(len(SM.blocks)) if SM.term(bi)["k"] == "return"][0]) if sites_ else False
+        rep.check(R, f"set_metadata/{name}-always", ok, where=SM.loc(), what=f"set_metadata calls {name} on every path (for every node kind and option combination)" if ok else
+                  f"set_metadata does not call {name} on every path: some restored entries keep default {'permissions' if name == 'set_permission' else 'time stamps'}")
+    own = calls.get("set_uid_gid", []) + calls.get("set_user_group", [])
+    oko = len(own) == 2
+    if oko:
+        # the only way around both ownership setters is no_ownership == true
+        ret = [bi for bi in range(len(SM.blocks)) if SM.term(bi)["k"] == "return"][0]
+        reach = pathsens.reachable_under(SM, force_flag("no_ownership", False), eval_expr=flag_eval("no_ownership", False))
+        cut = SM.reachable_from(0, cut_blocks=own)
+        # with no_ownership == false, the return is not reachable when both setters are cut
+        r2 = {b_ for b_ in cut if b_ in reach}
+        oko = ret not in _reach_under(SM, own, force_flag("no_ownership", False))
+    rep.check(R, "set_metadata/ownership-unless-no_ownership", oko, where=SM.loc(), what="ownership is restored (by id or by name) unless no_ownership is set")
+    st = calls.get("set_times", [])
+    others = [b_ for k_, v in calls.items() if k_ != "set_times" for b_ in v]
+    okl = len(st) == 1 and all(not C.can_reach(SM, st[0], o) for o in others)
+    rep.check(R, "set_metadata/times-last", okl, where=SM.loc(), what="set_times is the last metadata operation (later chmod/chown/xattr calls cannot disturb the restored times)" if okl else
+              "another metadata operation can run after set_times")
+    RM_ = prog.find1(r"^rustic_core::commands::restore::restore_metadata$")
+    sm_calls = [bb for bb, t in RM_.calls() if "callee" in t and callee(t).endswith("commands::restore::set_metadata")]
+    pushes = [bb for bb, t in RM_.calls() if "callee" in t and callee(t).endswith("Vec::<T, A>::push")]
+    pops = [bb for bb, t in RM_.calls() if "callee" in t and callee(t).endswith("Vec::<T, A>::pop")]
+    revs = [bb for bb, t in RM_.calls() if "callee" in t and re.search(r"Iterator::rev$", callee_decl(t))]
+    rep.require(R, "restore_metadata/sites", len(sm_calls) >= 3 and len(pushes) == 1 and len(pops) >= 1, where=RM_.loc(), what=f"restore_metadata applies metadata at {len(sm_calls)} sites, defers directories with one push, pops finished ones")
+    if len(sm_calls) >= 3 and len(pushes) == 1:
+        # the node-kind switch
+        sws = [bi for bi in range(len(RM_.blocks)) if RM_.term(bi)["k"] == "switch" and "node_type" in repr(flow.expr_of(RM_, RM_.term(bi)["discr"], bi)) or
+               (RM_.term(bi)["k"] == "switch" and any(s_[0] == "=" and s_[2][0] == "discr" and place_has_field(s_[2][1], "node_type") for s_ in RM_.blocks[bi]["s"]))]
+        okk = False
+        okd = False
+        if sws:
+            sw = sws[0]
+            t = RM_.term(sw)
+            dirv = str([v["discr"] for v in prog.adt("backend::node::NodeType")["variants"] if v["name"] == "Dir"][0])
+            dir_t = [x for v, x in t["targets"] if v == dirv]
+            other_t = [x for x in RM_.succ(sw) if not dir_t or x != dir_t[0]]
+            backs = C.back_edges(RM_)
+            loops = [(h, C.loop_blocks(RM_, h, l)) for (l, h) in backs]
+            inner = sorted([(h, bl) for (h, bl) in loops if sw in bl], key=lambda x: len(x[1]))
+            h0, loop = inner[-1] if inner else (None, set())
+            loop = set().union(*[bl for (h, bl) in loops if h == h0]) if inner else set()
+            hdr_edges = [(l, h) for (l, h) in backs if h == h0]
+            # non-directory nodes: every way round the loop from the non-Dir edge passes a set_metadata call
+            okk = bool(other_t) and all(not _reaches_any(RM_, x, [l for (l, h) in hdr_edges], cut_blocks=sm_calls, within=loop) for x in other_t)
+            # directories: the Dir edge pushes on every way round the loop, and the directory just entered does not get
+            # set_metadata before the push
+            if dir_t:
+                okd = not _reaches_any(RM_, dir_t[0], [l for (l, h) in hdr_edges], cut_blocks=pushes, within=loop)
+        rep.check(R, "restore_metadata/non-dir-nodes-get-metadata", okk, where=RM_.loc(), what="every non-directory node gets set_metadata in its loop iteration")
+        rep.check(R, "restore_metadata/dirs-deferred", okd, where=RM_.loc(), what="every directory node is pushed on the stack (its metadata is applied after its content)")
+        # popped directories are applied; the final drain is reversed (children before parents)
+        okp = all(any(C.can_reach(RM_, p_, c_) for c_ in sm_calls) for p_ in pops)
+        rep.check(R, "restore_metadata/popped-dirs-applied", okp, where=RM_.loc(), what="directories popped from the stack get set_metadata")
+        rep.check(R, "restore_metadata/final-drain-reversed", len(revs) == 1, where=RM_.loc(), what="the remaining stack is drained in reverse (innermost directory first)")
+
+
+def _reach_under(body, cut_blocks, forced):
+    reach = pathsens.reachable_under(body, forced)
+    # plain reachability restricted to blocks reachable under the forcing, with cut blocks removed
+    seen, work = set(), [0]
+    while work:
+        b = work.pop()
+        if b in seen or b in cut_blocks or b not in reach:
+            continue
+        seen.add(b)
+        f = forced(body, b)
+        for x in ([f] if f is not None else body.succ(b)):
+            work.append(x)
+    return seen
+
+
+def _reaches_any(body, start, targets, cut_blocks=(), within=None):
+    seen, work = set(), [start]
+    while work:
+        b = work.pop()
+        if b in seen or b in cut_blocks or (within is not None and b not in within):
+            continue
+        seen.add(b)
+        if b in targets:
+            return True
+        work.extend(body.succ(b))
+    return False
